@@ -14,14 +14,59 @@ GEN = ["Convert"]
 REL = 1e-12  # the property's "to rounding": relative to the magnitude of the inputs
 
 
+class RealRaised(Exception):
+    """the real code raised on an input of the property's domain: always a violation with that input, never exit 2"""
+
+    def __init__(self, name, ex, args):
+        super().__init__(f"{name} raised {type(ex).__name__}: {str(ex)[:160]}")
+        self.name, self.ex, self.call_args = name, ex, args
+
+    def problem(self, extra=None):
+        args = [np.asarray(a) for a in self.call_args]
+        return (f"{self.name} raised {type(self.ex).__name__} on valid input ({str(self.ex)[:120]}); argument shapes {[list(a.shape) for a in args]}",
+                {"oracle": "raise", "function": self.name, "args": [a.astype(float).tolist() for a in args], "shapes": [list(a.shape) for a in args],
+                 "dtypes": [str(a.dtype) for a in args], **(extra or {})})
+
+
+class _Real:
+    """ibicus.utils._utils with every function wrapped: an exception becomes RealRaised (carrying the arguments)"""
+
+    def __init__(self, mod):
+        self._m = mod
+
+    def __getattr__(self, name):
+        f = getattr(self._m, name)
+
+        def wrapped(*a):
+            try:
+                return f(*a)
+            except Exception as ex:  # noqa: BLE001
+                raise RealRaised(name, ex, a) from ex
+
+        return wrapped
+
+
 def U():
     import ibicus.utils._utils as u
 
-    return u
+    return _Real(u)
+
+
+def no_raise(oracle):
+    """an oracle never lets an exception of the real code escape: it is reported as a problem of that oracle"""
+
+    def run_oracle(*a):
+        try:
+            return oracle(*a)
+        except RealRaised as rr:
+            p, d = rr.problem()
+            return [(p, {"raised": d})]
+
+    return run_oracle
 
 
 # ------------------------------------------------------------------ generation (dyadic values k/64)
-SHAPES = [(), (1,), (7,), (2, 3), (3, 2, 2), (4, 1, 3), (1, 1, 1), (0,), (2, 0, 3), (5, 2, 2, 2)]
+SHAPES = [(), (1,), (7,), (2, 3), (3, 2, 2), (4, 1, 3), (1, 1, 1), (0,), (2, 0, 3), (5, 2, 2, 2), (6, 1, 1), (1, 3, 2), (5, 1), (1, 4)]
 
 
 def dy(rng, lo, hi):
@@ -132,6 +177,7 @@ def first_bad(mask, *arrs):
     return {"index": list(idx), "values": [float(np.asarray(a)[idx]) for a in arrs]}
 
 
+@no_raise
 def oracle_tas(tas, tasmin, tasmax):
     """C18 on the real functions, for tasmin < tasmax and tasmin <= tas <= tasmax (element-wise, any shape)."""
     u = U()
@@ -165,6 +211,7 @@ def oracle_tas(tas, tasmin, tasmax):
     return problems
 
 
+@no_raise
 def oracle_order(tas, r, s):
     """0 <= skew <= 1, range >= 0  =>  tasmin <= tas <= tasmax (and tasmax - tasmin = range)"""
     u = U()
@@ -182,6 +229,7 @@ def oracle_order(tas, r, s):
     return problems
 
 
+@no_raise
 def oracle_pr(pr, prsn):
     """pr > 0, 0 <= prsn <= pr"""
     u = U()
@@ -193,7 +241,7 @@ def oracle_pr(pr, prsn):
     tol = REL * np.abs(np.asarray(pr, dtype=float))  # element-wise relative: the fluxes can be tiny (kg m-2 s-1)
     problems = []
     if np.shape(q) != np.shape(pr) or np.shape(s2) != np.shape(pr) or np.shape(p2) != np.shape(pr):
-        return [("pr conversions change the shape", {})]
+        return [(f"pr conversions change the shape: inputs {np.shape(pr)}, get_prsnratio {np.shape(q)}, get_prsn {np.shape(s2)}, get_pr {np.shape(p2)}", {})]
     bad = ~((np.asarray(q) >= 0) & (np.asarray(q) <= 1))
     if np.any(bad):
         problems.append(("prsnratio outside [0,1] for 0 <= prsn <= pr, pr > 0", first_bad(bad, pr, prsn, q)))
@@ -311,13 +359,20 @@ def run_sequence(init, script):
         with warnings.catch_warnings(), np.errstate(all="ignore"):
             warnings.simplefilter("ignore")
             want = seq_reference(name, before)
-            got, args = seq_call(u, name, v)
+            try:
+                got, args = seq_call(u, name, v)
+            except RealRaised as rr:
+                problems.append((f"step {n} {name}: {rr.problem()[0]}", n))
+                break
         for k in v:
             if not np.array_equal(v[k], before[k], equal_nan=True) or id(v[k]) != ids[k]:
                 problems.append((f"step {n} {name}: the call changed its argument '{k}'", n))
         tol = REL * mag(*[before[a] for a in args])
         for pos, (g, w) in enumerate(zip(got, want)):
             g = np.asarray(g, dtype=float)
+            if g.shape != w.shape:
+                problems.append((f"step {n} {name} (output {pos}) has shape {g.shape}, the inputs have shape {w.shape}", n))
+                continue
             fin = np.isfinite(w)
             bad = (np.isfinite(g) != fin) | (fin & ~(np.abs(np.where(fin, g - w, 0.0)) <= tol + REL * np.abs(np.where(fin, w, 0.0))))
             if g.shape != w.shape or np.any(bad):
@@ -326,6 +381,101 @@ def run_sequence(init, script):
                                  f"after the calls/in-place changes before it: {where}", n))
         if problems:
             break
+    return problems
+
+
+# ------------------------------------------------------------------ dtypes and memory layouts
+# "Arrays of any shape": numpy arrays come in integer and single-precision dtypes and in non-contiguous layouts
+# (transposed / Fortran-ordered / strided / reversed views, singleton axes, broadcasting).  Every conversion must return
+# the documented formula of the VALUES, with the broadcast shape of its inputs, a floating result wherever it divides, and
+# must leave its inputs untouched.
+LAYOUTS = ["C", "F", "T", "strided", "reversed", "moveaxis"]
+DTYPES = ["float64", "float32", "int16", "int32", "int64"]
+FUNC_ARGS = {"get_tasrange": ("tasmin", "tasmax"), "get_tasskew": ("tas", "tasmin", "tasmax"), "get_tasrange_tasskew": ("tas", "tasmin", "tasmax"),
+             "get_tasmin": ("tas", "r", "s"), "get_tasmax": ("tas", "r", "s"), "get_tasmin_tasmax": ("tas", "r", "s"),
+             "get_prsnratio": ("pr", "prsn"), "get_prsn": ("pr", "q"), "get_pr": ("prsn", "q")}
+DIVIDES = {"get_tasskew": (0,), "get_tasrange_tasskew": (1,), "get_prsnratio": (0,), "get_pr": (0,)}
+
+
+def make_variant(a, layout, dtype):
+    """the same values in another dtype / memory layout (a view wherever the layout needs one)"""
+    a = np.array(a, dtype=dtype, order="C")
+    if a.ndim == 0 or layout == "C":
+        return a
+    if layout == "F":
+        return np.asfortranarray(a)
+    if layout == "T":
+        return np.ascontiguousarray(a.T).T
+    if layout == "strided":
+        big = np.zeros((2 * a.shape[0],) + a.shape[1:], dtype=a.dtype)
+        big[::2] = a
+        return big[::2]
+    if layout == "reversed":
+        return np.ascontiguousarray(a[::-1])[::-1]
+    return np.moveaxis(np.ascontiguousarray(np.moveaxis(a, 0, -1)), -1, 0)
+
+
+def gen_layout_case(rng, tier):
+    """integer-valued well-formed data (so every dtype holds it exactly); skew / ratio are genuinely fractional"""
+    shape = rng.choice([(5,), (4, 3), (3, 2, 4), (6, 1, 1), (4, 1, 3), (1, 3, 2), (2, 3, 1), (7, 2)])
+    n = int(np.prod(shape))
+    mn = np.array([rng.randint(-40, 300) for _ in range(n)], dtype=float).reshape(shape)
+    rg = np.array([rng.randint(1, 30) for _ in range(n)], dtype=float).reshape(shape)
+    mx = mn + rg
+    tas = mn + np.array([rng.randint(0, int(r)) for r in rg.reshape(-1)], dtype=float).reshape(shape)
+    pr = np.array([rng.randint(1, 200) for _ in range(n)], dtype=float).reshape(shape)
+    prsn = np.array([rng.randint(0, int(p)) for p in pr.reshape(-1)], dtype=float).reshape(shape)
+    prsn.reshape(-1)[0] = max(1.0, prsn.reshape(-1)[0])
+    base = {"tas": tas, "tasmin": mn, "tasmax": mx, "r": rg, "s": (tas - mn) / rg, "pr": pr, "prsn": prsn, "q": prsn / pr}
+    func = rng.choice(sorted(FUNC_ARGS))
+    spec = {}
+    for a in FUNC_ARGS[func]:
+        frac = a in ("s", "q")  # fractional by nature: floating dtypes only
+        spec[a] = (rng.choice(LAYOUTS), rng.choice(["float64", "float32"] if frac else DTYPES))
+    bc = None
+    if rng.random() < 0.25 and len(shape) >= 2:  # broadcasting: one argument constant along an axis, passed with a singleton axis
+        bc = rng.choice(FUNC_ARGS[func])
+    return base, func, spec, bc
+
+
+@no_raise
+def oracle_layout(base, func, spec, bc):
+    u = U()
+    args, ref_v = [], {k: np.array(v, dtype=float) for k, v in base.items()}
+    for a in FUNC_ARGS[func]:
+        x = np.array(base[a], dtype=float)
+        if bc == a:
+            x = x[:1] if x.ndim else x  # shape (1, ...) broadcasts along the first axis
+            ref_v[a] = np.broadcast_to(x, np.shape(base[a])).copy()
+        if spec[a][1] == "float32":
+            ref_v[a] = ref_v[a].astype(np.float32).astype(float)
+        args.append(make_variant(x, *spec[a]))
+    snap = [(a.tobytes(), a.shape, a.strides, a.dtype) for a in args]
+    want = seq_reference(func, ref_v)
+    with warnings.catch_warnings(), np.errstate(all="ignore"):
+        warnings.simplefilter("ignore")
+        out = getattr(u, func)(*args)
+    got = out if isinstance(out, tuple) else (out,)
+    problems = []
+    what = f"{func}({', '.join(f'{a}: {spec[a][1]} {spec[a][0]}' + (' broadcast' if bc == a else '') for a in FUNC_ARGS[func])})"
+    for a, sn in zip(args, snap):
+        if (a.tobytes(), a.shape, a.strides, a.dtype) != sn:
+            problems.append((f"{what} changed one of its arguments", {}))
+    single = any(spec[a][1] == "float32" for a in FUNC_ARGS[func])
+    rel = 2e-6 if single else REL
+    bshape = np.broadcast_shapes(*[a.shape for a in args])
+    for pos, (g, w) in enumerate(zip(got, want)):
+        g = np.asarray(g)
+        if g.shape != tuple(bshape):
+            problems.append((f"{what}: output {pos} has shape {g.shape}, the broadcast shape of the inputs is {tuple(bshape)}", {}))
+            continue
+        if pos in DIVIDES.get(func, ()) and g.dtype.kind != "f":
+            problems.append((f"{what}: output {pos} (a quotient) has dtype {g.dtype}", {}))
+        gf, fin = g.astype(float), np.isfinite(w)  # prsn = 0: ratio 0, pr not recoverable (NaN / inf on both sides)
+        wz = np.where(fin, w, 0.0)
+        bad = (np.isfinite(gf) != fin) | (fin & ~(np.abs(np.where(fin, gf, 0.0) - wz) <= rel * (mag(wz) + np.abs(wz))))
+        if np.any(bad):
+            problems.append((f"{what}: output {pos} differs from the documented formula of the values", first_bad(bad, g.astype(float), w)))
     return problems
 
 
@@ -363,7 +513,7 @@ def run(tier, res, force_search=False):
     res.rule = ("cases = (family tas-forward | tas-inverse | pr, flavour wellformed | degenerate | free, array shape incl. 0-d, empty, 1..4-d) "
                 "with dyadic values k/64 from one PRNG (VERIF_SEED); a case is non-trivial when the array is non-empty and not constant; "
                 "distinct = distinct (family, flavour, shape, values); plus call sequences (scripted stale-cache patterns + random calls / in-place "
-                "modifications) on the same array objects")
+                "modifications) on the same array objects; plus dtype / memory-layout / singleton-axis / broadcasting variants of integer-valued data")
     res.trusted = C.BASE_TRUSTED + [
         "numpy arithmetic on arrays is element-wise and shape-preserving; x/0 yields inf/NaN (modelled as Py.divE's error \"div0\")",
         "translator option partial_div: every `/` of a translated function is Py.divE; functions without `/` are total",
@@ -384,76 +534,92 @@ def run(tier, res, force_search=False):
         expect.append((op, case, impl, scale))
 
     for k in range(n):
-        flavour = rng.choice(["wellformed", "wellformed", "degenerate", "free"])
-        # ---------------- tas forward + round trip
-        tas, tasmin, tasmax = gen_tas(rng, tier, flavour)
-        case = {"family": "tas-forward", "flavour": flavour, "shape": list(tas.shape)}
-        nontriv = tas.size > 0 and (np.unique(tas).size > 1 or np.unique(tasmin).size > 1)
-        res.count(("tas", flavour, tas.shape, tas.tobytes(), tasmin.tobytes(), tasmax.tobytes()), nontriv,
-                  sample={**case, "tas": flat(tas)[:4], "tasmin": flat(tasmin)[:4], "tasmax": flat(tasmax)[:4]} if nontriv else None)
-        sc = mag(tas, tasmin, tasmax)
-        with warnings.catch_warnings(), np.errstate(all="ignore"):
-            warnings.simplefilter("ignore")
-            r = u.get_tasrange(tasmin, tasmax)
-            s = u.get_tasskew(tas, tasmin, tasmax)
-            rs = u.get_tasrange_tasskew(tas, tasmin, tasmax)
-        add("tasrange", [tasmin, tasmax], r, case, sc)
-        add("tasskew", [tas, tasmin, tasmax], s, case, sc)
-        lines.append("rangeskew " + " ".join(rl(a) for a in (tas, tasmin, tasmax)))
-        expect.append(("rangeskew", case, rs, sc))
-        if flavour == "wellformed":
-            for p, d in oracle_tas(tas, tasmin, tasmax):
-                problems_all.append((p, {"oracle": "tas", "tas": tas.tolist(), "tasmin": tasmin.tolist(), "tasmax": tasmax.tolist(), **case, "detail": d}))
-        # the inverse functions on the *computed* (non-dyadic) skew: exact rationals of the doubles are sent
-        if np.all(np.isfinite(np.asarray(s))):
+        try:
+            flavour = rng.choice(["wellformed", "wellformed", "degenerate", "free"])
+            # ---------------- tas forward + round trip
+            tas, tasmin, tasmax = gen_tas(rng, tier, flavour)
+            case = {"family": "tas-forward", "flavour": flavour, "shape": list(tas.shape)}
+            nontriv = tas.size > 0 and (np.unique(tas).size > 1 or np.unique(tasmin).size > 1)
+            res.count(("tas", flavour, tas.shape, tas.tobytes(), tasmin.tobytes(), tasmax.tobytes()), nontriv,
+                      sample={**case, "tas": flat(tas)[:4], "tasmin": flat(tasmin)[:4], "tasmax": flat(tasmax)[:4]} if nontriv else None)
+            sc = mag(tas, tasmin, tasmax)
             with warnings.catch_warnings(), np.errstate(all="ignore"):
                 warnings.simplefilter("ignore")
-                mn = u.get_tasmin(tas, r, s)
-                mx = u.get_tasmax(tas, r, s)
-            add("tasmin", [tas, r, s], mn, {**case, "family": "tas-roundtrip"}, sc)
-            add("tasmax", [tas, r, s], mx, {**case, "family": "tas-roundtrip"}, sc)
-        # ---------------- tas inverse on direct inputs
-        fl2 = "wellformed" if flavour == "wellformed" else "free"
-        tas2, r2, s2 = gen_inverse(rng, tier, fl2)
-        case2 = {"family": "tas-inverse", "flavour": fl2, "shape": list(tas2.shape)}
-        nt2 = tas2.size > 0 and np.unique(tas2).size > 1
-        res.count(("inv", fl2, tas2.shape, tas2.tobytes(), r2.tobytes(), s2.tobytes()), nt2,
-                  sample={**case2, "tas": flat(tas2)[:4], "tasrange": flat(r2)[:4], "tasskew": flat(s2)[:4]} if nt2 else None)
-        sc2 = mag(tas2, r2, s2) * 4
-        with warnings.catch_warnings(), np.errstate(all="ignore"):
-            warnings.simplefilter("ignore")
-            mm = u.get_tasmin_tasmax(tas2, r2, s2)
-            hp = u._get_tasmax_from_tasmin_and_range(r2, tas2)
-        add("tasmin", [tas2, r2, s2], u.get_tasmin(tas2, r2, s2), case2, sc2)
-        add("tasmax", [tas2, r2, s2], u.get_tasmax(tas2, r2, s2), case2, sc2)
-        add("helper", [r2, tas2], hp, case2, sc2)
-        lines.append("tasminmax " + " ".join(rl(a) for a in (tas2, r2, s2)))
-        expect.append(("tasminmax", case2, mm, sc2))
-        if fl2 == "wellformed":
-            for p, d in oracle_order(tas2, r2, s2):
-                problems_all.append((p, {"oracle": "order", "tas": tas2.tolist(), "tasrange": r2.tolist(), "tasskew": s2.tolist(), **case2, "detail": d}))
-        # ---------------- pr
-        pr, prsn = gen_pr(rng, tier, flavour)
-        case3 = {"family": "pr", "flavour": flavour, "shape": list(pr.shape)}
-        nt3 = pr.size > 0 and np.unique(pr).size > 1
-        res.count(("pr", flavour, pr.shape, pr.tobytes(), prsn.tobytes()), nt3,
-                  sample={**case3, "pr": flat(pr)[:4], "prsn": flat(prsn)[:4]} if nt3 else None)
-        sc3 = mag(pr, prsn)
-        with warnings.catch_warnings(), np.errstate(all="ignore"):
-            warnings.simplefilter("ignore")
-            q = u.get_prsnratio(pr, prsn)
-        add("prsnratio", [pr, prsn], q, case3, sc3)
-        qd = fill(pr.shape, lambda: rng.choice([0.0, 1.0, rng.randint(0, 64) / 64.0, rng.randint(-128, 128) / 64.0]))
-        with warnings.catch_warnings(), np.errstate(all="ignore"):
-            warnings.simplefilter("ignore")
-            add("pr", [prsn, qd], u.get_pr(prsn, qd), case3, sc3 * 64)
-            add("prsn", [pr, qd], u.get_prsn(pr, qd), case3, sc3 * 4)
-            if np.all(np.isfinite(np.asarray(q))):
-                add("pr", [prsn, q], u.get_pr(prsn, q), {**case3, "family": "pr-roundtrip"}, sc3)
-                add("prsn", [pr, q], u.get_prsn(pr, q), {**case3, "family": "pr-roundtrip"}, sc3)
-        if flavour == "wellformed":
-            for p, d in oracle_pr(pr, prsn):
-                problems_all.append((p, {"oracle": "pr", "pr": pr.tolist(), "prsn": prsn.tolist(), **case3, "detail": d}))
+                r = u.get_tasrange(tasmin, tasmax)
+                s = u.get_tasskew(tas, tasmin, tasmax)
+                rs = u.get_tasrange_tasskew(tas, tasmin, tasmax)
+            add("tasrange", [tasmin, tasmax], r, case, sc)
+            add("tasskew", [tas, tasmin, tasmax], s, case, sc)
+            lines.append("rangeskew " + " ".join(rl(a) for a in (tas, tasmin, tasmax)))
+            expect.append(("rangeskew", case, rs, sc))
+            if flavour == "wellformed":
+                for p, d in oracle_tas(tas, tasmin, tasmax):
+                    problems_all.append((p, {"oracle": "tas", "tas": tas.tolist(), "tasmin": tasmin.tolist(), "tasmax": tasmax.tolist(), **case, "detail": d}))
+            # the inverse functions on the *computed* (non-dyadic) skew: exact rationals of the doubles are sent
+            if np.all(np.isfinite(np.asarray(s))):
+                with warnings.catch_warnings(), np.errstate(all="ignore"):
+                    warnings.simplefilter("ignore")
+                    mn = u.get_tasmin(tas, r, s)
+                    mx = u.get_tasmax(tas, r, s)
+                add("tasmin", [tas, r, s], mn, {**case, "family": "tas-roundtrip"}, sc)
+                add("tasmax", [tas, r, s], mx, {**case, "family": "tas-roundtrip"}, sc)
+            # ---------------- tas inverse on direct inputs
+            fl2 = "wellformed" if flavour == "wellformed" else "free"
+            tas2, r2, s2 = gen_inverse(rng, tier, fl2)
+            case2 = {"family": "tas-inverse", "flavour": fl2, "shape": list(tas2.shape)}
+            nt2 = tas2.size > 0 and np.unique(tas2).size > 1
+            res.count(("inv", fl2, tas2.shape, tas2.tobytes(), r2.tobytes(), s2.tobytes()), nt2,
+                      sample={**case2, "tas": flat(tas2)[:4], "tasrange": flat(r2)[:4], "tasskew": flat(s2)[:4]} if nt2 else None)
+            sc2 = mag(tas2, r2, s2) * 4
+            with warnings.catch_warnings(), np.errstate(all="ignore"):
+                warnings.simplefilter("ignore")
+                mm = u.get_tasmin_tasmax(tas2, r2, s2)
+                hp = u._get_tasmax_from_tasmin_and_range(r2, tas2)
+            add("tasmin", [tas2, r2, s2], u.get_tasmin(tas2, r2, s2), case2, sc2)
+            add("tasmax", [tas2, r2, s2], u.get_tasmax(tas2, r2, s2), case2, sc2)
+            add("helper", [r2, tas2], hp, case2, sc2)
+            lines.append("tasminmax " + " ".join(rl(a) for a in (tas2, r2, s2)))
+            expect.append(("tasminmax", case2, mm, sc2))
+            if fl2 == "wellformed":
+                for p, d in oracle_order(tas2, r2, s2):
+                    problems_all.append((p, {"oracle": "order", "tas": tas2.tolist(), "tasrange": r2.tolist(), "tasskew": s2.tolist(), **case2, "detail": d}))
+            # ---------------- pr
+            pr, prsn = gen_pr(rng, tier, flavour)
+            case3 = {"family": "pr", "flavour": flavour, "shape": list(pr.shape)}
+            nt3 = pr.size > 0 and np.unique(pr).size > 1
+            res.count(("pr", flavour, pr.shape, pr.tobytes(), prsn.tobytes()), nt3,
+                      sample={**case3, "pr": flat(pr)[:4], "prsn": flat(prsn)[:4]} if nt3 else None)
+            sc3 = mag(pr, prsn)
+            with warnings.catch_warnings(), np.errstate(all="ignore"):
+                warnings.simplefilter("ignore")
+                q = u.get_prsnratio(pr, prsn)
+            add("prsnratio", [pr, prsn], q, case3, sc3)
+            qd = fill(pr.shape, lambda: rng.choice([0.0, 1.0, rng.randint(0, 64) / 64.0, rng.randint(-128, 128) / 64.0]))
+            with warnings.catch_warnings(), np.errstate(all="ignore"):
+                warnings.simplefilter("ignore")
+                add("pr", [prsn, qd], u.get_pr(prsn, qd), case3, sc3 * 64)
+                add("prsn", [pr, qd], u.get_prsn(pr, qd), case3, sc3 * 4)
+                if np.all(np.isfinite(np.asarray(q))):
+                    add("pr", [prsn, q], u.get_pr(prsn, q), {**case3, "family": "pr-roundtrip"}, sc3)
+                    add("prsn", [pr, q], u.get_prsn(pr, q), {**case3, "family": "pr-roundtrip"}, sc3)
+            if flavour == "wellformed":
+                for p, d in oracle_pr(pr, prsn):
+                    problems_all.append((p, {"oracle": "pr", "pr": pr.tolist(), "prsn": prsn.tolist(), **case3, "detail": d}))
+        except RealRaised as rr:
+            p_, d_ = rr.problem()
+            problems_all.append((p_, d_))
+
+    # dtypes / memory layouts / singleton axes / broadcasting
+    n_lay = (60 if tier == "quick" else 900) * (3 if (force_search or not lean_ok) else 1)
+    for k in range(n_lay):
+        base, func, spec, bc = gen_layout_case(rng, tier)
+        res.count(("layout", func, tuple(sorted(spec.items())), bc, base["tas"].shape, base["tas"].tobytes()), True,
+                  sample={"family": "layout", "function": func, "spec": {a: list(v) for a, v in spec.items()}, "broadcast": bc,
+                          "shape": list(base["tas"].shape)} if k == 0 else None)
+        for p, d in oracle_layout(base, func, spec, bc):
+            problems_all.append((p, {"oracle": "layout", "family": "layout", "shape": list(base["tas"].shape), "function": func,
+                                     "spec": {a: list(v) for a, v in spec.items()}, "broadcast": bc,
+                                     "base": {a: np.asarray(v).tolist() for a, v in base.items()}, "detail": d}))
 
     # stateful sequences: the same array objects reused across calls, modified in place between calls
     n_seq = (12 if tier == "quick" else 150) * (3 if (force_search or not lean_ok) else 1)
@@ -508,7 +674,10 @@ def run(tier, res, force_search=False):
 
     seen = set()
     for p, case in problems_all:
-        key = (p if case.get("oracle") != "sequence" else " ".join(p.split(" ")[2:4]), case.get("oracle"))
+        key = (p if case.get("oracle") not in ("sequence", "layout", "raise") else
+               (" ".join(p.split(" ")[2:4]) if case.get("oracle") == "sequence" else (case.get("function"), p.split(":")[-1][:12])), case.get("oracle"))
+        if len(res.violations) >= 6:
+            break
         if key in seen:
             continue
         seen.add(key)
@@ -527,7 +696,18 @@ def replay(data):
         print("replay without failing input: run ./check C18 --tier quick")
         return 2
     A = lambda k: np.asarray(fi[k], dtype=float)  # noqa: E731
-    if fi["oracle"] == "sequence":
+    if fi["oracle"] == "raise":
+        try:
+            with warnings.catch_warnings(), np.errstate(all="ignore"):
+                warnings.simplefilter("ignore")
+                getattr(U(), fi["function"])(*[np.asarray(a, dtype=dt).reshape(sh) for a, dt, sh in zip(fi["args"], fi["dtypes"], fi["shapes"])])
+            probs = []
+        except RealRaised as rr:
+            probs = [rr.problem()]
+    elif fi["oracle"] == "layout":
+        probs = oracle_layout({k: np.asarray(v, dtype=float) for k, v in fi["base"].items()}, fi["function"],
+                              {a: tuple(v) for a, v in fi["spec"].items()}, fi["broadcast"])
+    elif fi["oracle"] == "sequence":
         probs = [(p, {"step": n}) for p, n in run_sequence(fi["init"], [tuple(x) for x in fi["script"]])]
     elif fi["oracle"] == "tas":
         probs = oracle_tas(A("tas"), A("tasmin"), A("tasmax"))
